@@ -71,9 +71,14 @@ hxd_setup(void)
 	return (hxd_ctx = make_echsd()) != NULL ? 0 : -1;
 }
 
+static _task_t hxd_sel;
+
 static _task_t
 hxd_task(void)
 {
+	if (hxd_sel != NULL) {
+		return hxd_sel;
+	}
 	for (size_t i = 0; i < ztask_ht; i++) {
 		if (task_ht[i].oid) {
 			return task_ht[i].t;
@@ -104,6 +109,100 @@ hxd_submit(const char *buf, size_t len)
 		n += task_ht[i].oid != 0;
 	}
 	return n;
+}
+
+static int
+hxd_ntasks(void)
+{
+	int n = 0;
+
+	for (size_t i = 0; i < ztask_ht; i++) {
+		n += task_ht[i].oid != 0;
+	}
+	return n;
+}
+
+int
+hxd_submit_chunked(const char *buf, size_t len, size_t chunk)
+{
+	struct echs_cmdparam_s param;
+	ncred_t cred = {geteuid(), getegid()};
+	int nul = open("/dev/null", O_WRONLY);
+	size_t o = 0;
+
+	memset(&param, 0, sizeof(param));
+	while (1) {
+		/* one recv(): up to CHUNK bytes, 0 once the peer has shut the connection */
+		size_t nrd = len - o < chunk ? len - o : chunk;
+
+		if (feed_cmd(&param, buf + o, nrd) != ECHS_CMD_ICAL) {
+			break;
+		}
+		(void)cmd_ical(hxd_ctx->loop, nul, &param.ical, cred);
+		if (nrd == 0) {
+			break;
+		}
+		o += nrd;
+	}
+	shut_cmd(&param);
+	close(nul);
+	return hxd_ntasks();
+}
+
+int
+hxd_select(const char *uid)
+{
+	hxd_sel = get_task(intern(uid, strlen(uid)));
+	return hxd_sel != NULL ? 0 : -1;
+}
+
+long
+hxd_chkpnt(const char *dir, char *out, size_t outsz)
+{
+	char fn[64];
+	ssize_t n;
+	size_t tot = 0;
+	int fd;
+
+	if ((qdirfd = open(dir, O_RDONLY)) < 0 || chkpnt1(geteuid()) < 0) {
+		return -1;
+	}
+	snprintf(fn, sizeof(fn), "echsq_%u.ics", (unsigned)geteuid());
+	if ((fd = openat(qdirfd, fn, O_RDONLY)) < 0) {
+		return -1;
+	}
+	while (tot < outsz - 1 && (n = read(fd, out + tot, outsz - 1 - tot)) > 0) {
+		tot += n;
+	}
+	out[tot] = '\0';
+	close(fd);
+	(void)unlinkat(qdirfd, fn, 0);
+	return tot;
+}
+
+int
+hxd_reload(const char *dir, const char *text, size_t len)
+{
+	char fn[64];
+	int fd;
+
+	snprintf(fn, sizeof(fn), "echsq_%u.ics", (unsigned)geteuid());
+	if ((qdirfd = open(dir, O_RDONLY)) < 0 || (fd = openat(qdirfd, fn, O_WRONLY | O_CREAT | O_TRUNC, 0600)) < 0) {
+		return -1;
+	}
+	for (size_t o = 0; o < len;) {
+		ssize_t n = write(fd, text + o, len - o);
+		if (n <= 0) {
+			close(fd);
+			(void)unlinkat(qdirfd, fn, 0);
+			return -1;
+		}
+		o += n;
+	}
+	close(fd);
+	_inject_file(hxd_ctx, fn);
+	(void)unlinkat(qdirfd, fn, 0);
+	return hxd_ntasks();
 }
 
 long long
